@@ -67,7 +67,7 @@ def gen_method(rng, idx):
     ignore = [n for n in names if rng.random() < 0.2] if names else []
     # ignored parameters need defaults to allow "omitted" spellings? not required; keep as is
     bare = (not ignore) and rng.random() < 0.25
-    return {'name': f'm{idx}', 'params': params, 'ignore': ignore, 'version': None if bare else rng.choice([None, None, '1', '2', '2024/05', 'exp/2']),
+    return {'name': f'm{idx}', 'params': params, 'ignore': ignore, 'version': None if bare else rng.choice([None, None, '1', '2', '2024/05', 'exp/2', 0, '']),
             'bare': bare}
 
 
@@ -154,7 +154,7 @@ def run_class(rng, res: CaseResult, cache_kind):
     methods = [gen_method(rng, i) for i in range(rng.randint(1, 3))]
     # make two methods comparable for isolation checks: same params, different name / version
     if len(methods) >= 2 and rng.random() < 0.5:
-        methods[1] = dict(methods[0], name='m1', version=None if methods[0]['bare'] else rng.choice([None, '1', '2', '2024/05', 'exp/2', 'exq/2']))
+        methods[1] = dict(methods[0], name='m1', version=None if methods[0]['bare'] else rng.choice([None, '1', '2', '2024/05', 'exp/2', 'exq/2', 0, '']))
     if len(methods) >= 2 and rng.random() < 0.3:
         # same method *name* is impossible in one class; version isolation is exercised by a second class below
         pass
